@@ -3,8 +3,8 @@
    is complete it is printed with the PURE answer of every call (KeyCache.tla) - the answer the real package must give at
    that position whatever came before - and with the prediction of the implementation-shaped model: which earlier call
    made the object handed back (the real code returns the same pointer on a hit), for the model capacity Cap (the driver
-   follows every call that inserts a NEW entry in the model (ins) with 511 fresh keys, so that one model slot is 512 slots of
-   the real cache of 1024 and the real cache evicts exactly when the model does) and for a cache that
+   decodes 1022 ballast keys again after every call: they are always the most recently used entries, so the real cache of
+   1024 keeps exactly the Cap = 2 most recently used keys of the history and evicts exactly when the model does) and for a cache that
    never evicts (no padding).  Histories mix curves, encodings, parities, repeats and more distinct keys than Cap. *)
 EXTENDS KeyCacheMC, TLC, Json
 
